@@ -31,6 +31,9 @@ class StartRequests(Observer):
         self.inst_states = {}
         self.prev_ops = {}
         self.disability_t = {}   # (nick, program) -> t_us of the last accepted enable / disable
+        self.stop_judged = set()
+        self.distribution_first = {}
+        self.last_fsm = {}
         self.disab_delivery = {}  # (receiver, inc, sender identifier, ns) -> (t_us, receiver's view of sender, disabled)
 
     def _probe(self, name):
@@ -117,6 +120,10 @@ class StartRequests(Observer):
                 self._note_failure(sim, inst, ns)
         elif ptype == PublicationHeaders.STATE and body['fsm_statename'] == 'DISTRIBUTION':
             self.distribution_entry[(inst.nick, inst.incarnation)] = sim.now_us
+            if self.last_fsm.get((inst.nick, inst.incarnation)) != 'DISTRIBUTION':
+                self.distribution_first[(inst.nick, inst.incarnation)] = sim.now_us   # entry (not a re-publication)
+        if ptype == PublicationHeaders.STATE:
+            self.last_fsm[(inst.nick, inst.incarnation)] = body['fsm_statename']
         elif ptype == PublicationHeaders.STATE and body['fsm_statename'] in ('ELECTION', 'SYNCHRONIZATION'):
             self.abort_entry[(inst.nick, inst.incarnation)] = sim.now_us
 
@@ -404,6 +411,8 @@ class StartRequests(Observer):
         return t0 if t0 >= 0 else None
 
     def after_event(self, sim, inst, kind):
+        if self.aborted and kind == 'tail':
+            self._check_stop_strategy()
         if not inst.alive or inst.supvisors is None:
             return
         key0 = (inst.nick, inst.incarnation)
@@ -482,6 +491,51 @@ class StartRequests(Observer):
                 self.v('C03', 'request-after-required-failure', dict(detail, failed=q, strategy=strategy,
                                                                      failed_level=level, start_sequence=seq),
                        'request-after-required-failure:%s' % strategy)
+
+    def finish(self):
+        self._check_stop_strategy(final=True)
+
+    def _check_stop_strategy(self, final=False):
+        """ STOP starting failure strategy: "STOP then stops it once in-flight starts end": judged 45 s after the failure
+        (or at the end of the run). """
+        if not self.app_plans_only:
+            return
+        sim = self.sim
+        from oracles.agreement import truth
+        for (nick, inc, app), (t_ab, level, strategy, q) in sorted(self.aborted.items()):
+            if strategy != 'STOP' or (nick, inc, app, t_ab) in self.stop_judged:
+                continue
+            if sim.now_us - t_ab < 45 * US:
+                continue
+            self.stop_judged.add((nick, inc, app, t_ab))
+            s = sim.instances.get(nick)
+            if s is None or not s.alive or s.incarnation != inc or s.supvisors is None:
+                continue
+            # nothing else may have driven the application since: user operations, failure handler plans, a new
+            # DISTRIBUTION, jobs aborted by an election, faults
+            reason = None
+            if any(k[1] == app and v[0] > t_ab for k, v in self.ops.items()):
+                reason = 'op'
+            elif any(k[2] == app and v > t_ab for k, v in self.handler_plans.items()):
+                reason = 'handler'
+            elif self.distribution_first.get((nick, inc), -1) > t_ab:
+                reason = 'distribution'
+            elif self.abort_entry.get((nick, inc), -1) > t_ab:
+                reason = 'jobs_aborted'
+            if reason:
+                self._probe('stop_strategy_superseded_skipped_%s' % reason)
+                continue
+            if any(fired and item['kind'] in ('crash', 'restart', 'partition', 'heal', 'stall') and t > t_ab - 30 * US
+                   for t, item, fired in self.run.applied):
+                self._probe('stop_strategy_disturbed_skipped')
+                continue
+            running = sorted(ns for i in sim.instances.values() if i.alive and i.sd is not None
+                             for ns, st in truth(i).items() if ns.split(':')[0] == app and st == 'RUNNING')
+            self._probe('stop_strategy_judged')
+            if running and self.stops.get((nick, inc, app), -1) < t_ab:
+                self.v('C03', 'stop-strategy-not-applied',
+                       {'requester': nick, 'application': app, 'failed': q, 'failed_at': t_ab / US,
+                        'still_running': running}, 'stop-strategy-not-applied')
 
     def _note_host_lost(self, sim, inst, ident):
         """ S sees the host of a start it requested leave RUNNING before the start ended: the process is given up,
